@@ -245,10 +245,16 @@ func c20Run(c *Case) {
 	if len(lc.input) > 0 {
 		files = []InFile{{Name: "in.json", Data: lc.input}}
 	}
-	lib := RunLib(lc.prog, files, nil, RunOpts{Budget: 2000000000})
+	family := strings.SplitN(lc.name, "/", 2)[0]
+	budget := 2000000000
+	if family == "recursion" {
+		// a recursion that is refused after a few thousand frames executes a few ten thousand statements; one that is still
+		// running after a hundred million has not been refused (ninth round: a self tail call that re-uses its frame)
+		budget = 100000000
+	}
+	lib := RunLib(lc.prog, files, nil, RunOpts{Budget: budget})
 	var ru syscall.Rusage
 	syscall.Getrusage(syscall.RUSAGE_SELF, &ru)
-	family := strings.SplitN(lc.name, "/", 2)[0]
 	c.Count("family:" + family)
 	c.Count("outcome:" + lib.Class)
 	c.Max("peak_rss_kb:"+family, int(ru.Maxrss))
@@ -258,6 +264,9 @@ func c20Run(c *Case) {
 	out := string(lib.Stdout)
 	isErr := lib.Class == "runtime" || lib.Class == "json" || (lc.mk != nil && lib.Class == "syntax")
 	switch {
+	case lib.Class == "budget" && family == "recursion":
+		c.Violation(fmt.Sprintf("%s: still running after %d statements - the recursion is neither finished nor refused", lc.name, budget), nil, rp)
+		return
 	case lib.Class != "ok" && !isErr:
 		c.Violation(fmt.Sprintf("%s: ended as %s (%s %s)", lc.name, lib.Class, lib.Msg, lib.PanicVal), nil, rp)
 		return
